@@ -177,6 +177,25 @@ Example C04_separator_needed :
 Proof. vm_compute. reflexivity. Qed.
 Print Assumptions C04_separator_needed.
 
+(* ---- conversely, for EVERY text: whatever FLOAT or STRICTFLOAT matches ends at a delimiter (end of text or a
+   character that is neither a word character nor '.'), so a number is never cut out of a longer word such as
+   `1.5x`, `3.method` or `1.5.2` *)
+Theorem C04_float_match_delimited : forall u t pre text n,
+  t = TFLOAT \/ t = TSTRICTFLOAT ->
+  bt_match (src_env u) t pre text = Some (t, n) ->
+  exists lit rest, text = lit ++ rest /\ length lit = n /\
+    match rest with [] => True | c :: _ => is_word (src_env u) c = false /\ c <> 46%N end.
+Proof. exact float_match_delimited. Qed.
+Print Assumptions C04_float_match_delimited.
+
+Example C04_float_match_delimited_nonvacuous :
+  bt_match (src_env ascii_only) TFLOAT [] [49; 46; 53; 45; 50]%N = Some (TFLOAT, 3%nat) /\
+  load_alts (src_env ascii_only) [TFLOAT; TID] [49; 46; 53; 120]%N = None /\
+  load_alts (src_env ascii_only) [TNUMBER; TID] [49; 101; 53; 101]%N
+  = Some [(0%nat, VInt 1, 0%nat, 1%nat); (1%nat, VStr [101; 53; 101]%N, 1%nat, 4%nat)].
+Proof. vm_compute. repeat split; reflexivity. Qed.
+Print Assumptions C04_float_match_delimited_nonvacuous.
+
 (* ---- the engine's fuel is never exhausted: every fuel above lo + |rest| gives the same list of successes
    (so the out-of-fuel value [] of rep_loop plays no role in any match) *)
 Theorem C04_rx_fuel : forall E g lo hi r st fuel,
